@@ -14,13 +14,15 @@ pub fn slot_box(slot: i64, conf_milli: i64) -> Universal2DBox {
         2 => Universal2DBox::new_with_confidence(600.0, 400.0, Some(-0.7), 1.5, 40.0, c),
         3 => Universal2DBox::new_with_confidence(1200.0, 900.0, Some(0.9), 1.0, 50.0, c),
         4 => Universal2DBox::new_with_confidence(300.0, 1500.0, Some(2.0), 0.8, 60.0, c),
+        // slot 1 seen smaller: same centre and aspect, area x 0.64
+        5 => Universal2DBox::new_with_confidence(100.0, 100.0, None, 0.5, 64.0, c),
         o => panic!("slot {}", o),
     }
 }
 pub fn slot_of(b: &Universal2DBox) -> i64 {
-    for s in 1..=4 {
+    for s in 1..=5 {
         let sb = slot_box(s, 1000);
-        if (sb.xc - b.xc).abs() < 5.0 && (sb.yc - b.yc).abs() < 5.0 {
+        if (sb.xc - b.xc).abs() < 5.0 && (sb.yc - b.yc).abs() < 5.0 && (sb.height - b.height).abs() < 5.0 {
             return s;
         }
     }
@@ -122,6 +124,8 @@ struct Run {
     to_spec: HashMap<u64, i64>,
     to_real: HashMap<i64, u64>,
     literal: bool,
+    first_slot: HashMap<i64, i64>,
+    resized: std::collections::HashSet<i64>,
 }
 
 impl Run {
@@ -207,7 +211,12 @@ impl Interp {
             if r.visual != vis {
                 return Some(("predict:vt".into(), json!({"i": i, "spec_visual": vis, "impl_visual": r.visual})));
             }
-            if !near_box(&r.pred, &d.bbox, 0.05) {
+            // a track that saw two sizes of its place has a smoothed size in between: no expectation in the slot world
+            let first = *run.first_slot.entry(sid).or_insert(jint(s, "slot"));
+            if first != jint(s, "slot") {
+                run.resized.insert(sid);
+            }
+            if !run.resized.contains(&sid) && !near_box(&r.pred, &d.bbox, 0.05) {
                 return Some(("predict:pred".into(), json!({"i": i, "impl": format!("{:?}", r.pred)})));
             }
         }
@@ -492,7 +501,7 @@ impl Interp {
             ctl.start_gating(drv.main_uid());
         }
         let literal = drv.literal_ids();
-        let mut run = Run { drv, to_spec: HashMap::new(), to_real: HashMap::new(), literal };
+        let mut run = Run { drv, to_spec: HashMap::new(), to_real: HashMap::new(), literal, first_slot: HashMap::new(), resized: Default::default() };
         let m0 = rep.mismatches;
         self.replay_steps(idx, beh, steps, &mut run, reordered0, rep);
         // the tracker's destructor (it stops and joins the worker threads) belongs to the code under test as well
